@@ -56,6 +56,7 @@ impl IndicatorConfig for ChandeMomentumOscillator {
 			window: Window::new(cfg.period, 0.),
 			cross_under: CrossUnder::default(),
 			cross_above: CrossAbove::default(),
+			flat: cfg.period,
 			cfg,
 		})
 	}
@@ -113,6 +114,9 @@ pub struct ChandeMomentumOscillatorInstance {
 	window: Window<ValueType>,
 	cross_under: CrossUnder,
 	cross_above: CrossAbove,
+	/// number of the most recent consecutive steps without any change of the source value (saturating)
+	#[cfg_attr(feature = "serde", serde(default))]
+	flat: PeriodType,
 }
 
 #[inline]
@@ -144,6 +148,19 @@ impl IndicatorInstance for ChandeMomentumOscillatorInstance {
 		// would push the ratio out of [-1.0; 1.0] (down to infinity when the residues cancel each other)
 		self.pos_sum = (self.pos_sum + (right_pos - left_pos)).max(0.);
 		self.neg_sum = (self.neg_sum + (right_neg - left_neg)).max(0.);
+
+		// when the window holds no change at all, both sums are exactly zero whatever residue is left in them;
+		// otherwise the value on a flat window would be a ratio of residues instead of `0.0`
+		self.flat = if ch == 0. {
+			self.flat.saturating_add(1)
+		} else {
+			0
+		};
+
+		if self.flat >= self.cfg.period {
+			self.pos_sum = 0.;
+			self.neg_sum = 0.;
+		}
 
 		let value = if self.pos_sum != 0. || self.neg_sum != 0. {
 			(self.pos_sum - self.neg_sum) / (self.pos_sum + self.neg_sum)
